@@ -45,7 +45,7 @@ def native_batch(qual, n, seed, limit_s, case_timeout=60, known=()):
         env.setdefault(_v, "1")  # budgets are CPU time: one numerical thread per real-code run
     try:
         p = subprocess.run([sys.executable, "-m", "pyvc.nativerun"], input=payload, capture_output=True, text=True,
-                           timeout=limit_s + 60, env=env, cwd=VERIF)
+                           timeout=limit_s + 120 + 3 * case_timeout, env=env, cwd=VERIF)  # the soft limit is checked between cases: allow the last case its own budget
     except subprocess.TimeoutExpired:
         return {"ok": None, "detail": "native batch timed out", "evaluations": 0, "failures": []}
     if p.returncode != 0:
@@ -97,6 +97,24 @@ def check_property(pid, tier, seed):
     total_inst = 0
     solver_s = 0.0
     backends = {}
+    # subset condition of the generator, decided by a scan of the real source: module-level bindings are constants (no function of a module in the
+    # property's cone writes module-level state, a class attribute, a mutable default argument, or is memoised).  Where it fails the functions of that
+    # module are outside the verifier's subset: no verdict from the deductive part (a bounded run may still produce a concrete violation).
+    from .purity import package_modules, scan_module
+    from .run import FnReport
+
+    cone = {q.split(":")[0] for q in list(prop.FUNCTIONS) + sorted(getattr(run, "used_contracts", set()))}
+    module_scan = {"scope": getattr(prop, "MODULE_STATE_SCOPE", "cone"), "modules": [], "findings": []}
+    for mod, path in package_modules(REPO):
+        if module_scan["scope"] != "package" and mod not in cone:
+            continue
+        module_scan["modules"].append(mod)
+        found = scan_module(path)
+        if found:
+            rep = FnReport(f"{mod}:<module-level state>")
+            rep.error = "module-level state is written (the generator treats module-level bindings as constants): " + "; ".join(f"line {ln}: {what}" for ln, what in found)[:600]
+            run.fn_reports.append(rep)
+            module_scan["findings"] += [f"{mod} line {ln}: {what}" for ln, what in found]
     for rep in run.fn_reports:
         if rep.error:
             undecided.append((rep.qual, f"function out of reach of the engine: {rep.error}"))
@@ -122,7 +140,7 @@ def check_property(pid, tier, seed):
             # undecided by the solvers: look for a candidate counterexample (quantified assumptions dropped) and replay it;
             # only a natively reproduced failure counts
             unk = [r for r in rs if r.status != solve.UNSAT]
-            v = handle_refuted(run, prop, per_fn, name, unk, None, known, candidate_only=True)
+            v = handle_refuted(run, prop, per_fn, name, unk, baseline, known, candidate_only=True)
             if v["class"] == "violation":
                 violations.append(v)
             elif v["class"] == "known":
@@ -218,6 +236,7 @@ def check_property(pid, tier, seed):
         "known_findings_reported": [k["finding"]["what"] for k in known_hits],
         "not_proved_clauses": list(getattr(prop, "NOT_PROVED", [])),
         "assumed_callee_contracts": _assumed_callees(getattr(run, "used_contracts", set())),
+        "module_state_scan": module_scan,
     }
     if level != "proof":
         coverage["explanation"] = (coverage["explanation"] + " | level 'other': " + "; ".join(w for _, w in undecided))[:4000] if undecided else coverage["explanation"]
@@ -312,6 +331,27 @@ def match_known(known, name, text):
     return None
 
 
+def _provably_false(run, name, unk, baseline, ex):
+    """An obligation that was discharged on the unchanged tree, is undecided now, and has a quantifier-free conjunct that the
+    quantifier-free part of its (satisfiable) path condition contradicts: it fails, although no model could be completed."""
+    if baseline is None or name not in baseline or ex is None:
+        return None
+    for r in unk:
+        try:
+            c = solve.provably_false(r.obl, ex.axioms)
+        except Exception:
+            c = None
+        if c is not None:
+            path = run.write_replay(name, {"property": run.pid, "obligation": name, "function": r.obl.extra.get("vname") or r.obl.func, "path": r.obl.path, "line": r.obl.line,
+                                           "kind": r.obl.kind, "solver": {"status": r.status, "backend": r.backend, "seconds": r.seconds, "reason": r.reason},
+                                           "contradicted_conjunct": str(c)[:3000], "repo": REPO, "frame_locations": r.obl.extra.get("frame_locations"),
+                                           "note": "obligation was discharged on the unchanged tree; now this quantifier-free conjunct of its goal is contradicted by the "
+                                                   "quantifier-free assumptions of the path (satisfiable on their own); the solvers could not complete a model because "
+                                                   "callee postconditions are quantified, so there is no concrete failing input"})
+            return {"class": "violation", "name": name, "replay": path, "suffix": "no-failing-input-found"}
+    return None
+
+
 def handle_refuted(run, prop, per_fn, name, bad, baseline, known, candidate_only=False):
     """A named obligation has a satisfiable negation on some path: build a replay and classify."""
     r = bad[0]
@@ -320,7 +360,7 @@ def handle_refuted(run, prop, per_fn, name, bad, baseline, known, candidate_only
     ex = per_fn[qual][0] if qual in per_fn else None
     model = solve.model_for(obl, ex.axioms if ex else [], timeout_ms=min(run.timeout_ms, 20000), drop_quantified=candidate_only) if ex else None
     if candidate_only and model is None:
-        return {"class": "undecided", "name": name, "note": "undecided"}
+        return _provably_false(run, name, bad, baseline, ex) or {"class": "undecided", "name": name, "note": "undecided"}
     inputs = None
     if model is not None and ex is not None:
         try:
@@ -335,6 +375,8 @@ def handle_refuted(run, prop, per_fn, name, bad, baseline, known, candidate_only
                "solver": {"status": r.status, "backend": r.backend, "seconds": r.seconds},
                "model_inputs": jsonable(plain(inputs)), "repo": REPO,
                "goal": str(obl.goal)[:3000]}
+    if obl.extra.get("detail"):
+        payload["detail"] = obl.extra["detail"]
     sig_text = f"{name} {obl.path} " + json.dumps(jsonable(plain(inputs)), sort_keys=True)
     nat = NATIVES.get(qual)
     reproduced = None
@@ -380,7 +422,7 @@ def handle_refuted(run, prop, per_fn, name, bad, baseline, known, candidate_only
         path = run.write_replay(name, payload)
         return {"class": "violation", "name": name, "replay": path, "suffix": ""}
     if candidate_only:
-        return {"class": "undecided", "name": name, "note": "undecided"}
+        return _provably_false(run, name, bad, baseline, ex) or {"class": "undecided", "name": name, "note": "undecided"}
     if baseline is not None and name in baseline:
         payload["note"] = "obligation was discharged on the unchanged tree and is now refuted by the solver; no concrete failing input could be constructed"
         path = run.write_replay(name, payload)
